@@ -659,3 +659,48 @@ class KeysW(Base):
             yield from bps.close_run()
 
         return bpp.set_run_key_wrapper(outer(), ko)
+
+
+@register
+class MonitorDoc(Base):
+    """A document consumer that writes to the monitored signal while a document of kind params['on'] is being dispatched
+    (start | descriptor | event | stop); the run is closed by the plan with the monitor still installed (um=0) or after
+    an explicit unmonitor (um=1)."""
+
+    id = "monitordoc"
+
+    def devices(self, ctx):
+        return {
+            "sig": FakeSignal(ctx, "sig", initial=0),
+            "det": FakeDet(ctx, "det", is_async=self.a, stageable=False),
+        }
+
+    def configure(self, RE, d):
+        on = self.params.get("on", "stop")
+        busy = []
+        count = [0]
+
+        def writer(name, doc):
+            if name == on and not busy:
+                busy.append(1)
+                try:
+                    count[0] += 1
+                    d["sig"].put(50 + count[0])
+                finally:
+                    busy.pop()
+
+        RE.subscribe(writer)
+
+    def plan(self, d):
+        import bluesky.plan_stubs as bps
+
+        def plan():
+            yield from bps.open_run()
+            yield from bps.monitor(d["sig"], name="sig_monitor")
+            yield from bps.checkpoint()
+            yield from bps.trigger_and_read([d["det"]])
+            if self.params.get("um"):
+                yield from bps.unmonitor(d["sig"])
+            yield from bps.close_run()
+
+        return plan()
